@@ -130,8 +130,9 @@ def norm_uri(u, root):
 ERROR_CAUSES = [  # feature of the graph -> construct class named in the key of an "error on valid input" violation
     ('unused-fallback-with-include:root-doc', 'include-in-unused-fallback:root-doc'),
     ('href-dot-segments-through-missing-directory', 'href-dot-segments-through-missing-directory'),
+    ('href-dot-segment-before-dotdot', 'href-dot-segment-before-dotdot'),
     ('explicit-xml-base:included-root', 'explicit-xml-base:included-root'),
-    ('text-over-16k-multibyte', 'text-include:over-16k-multibyte'),
+    ('text-over-16k-multibyte', 'over-16k-multibyte'),
     ('dtd-entities-or-defaults:included-doc', 'xml-include:dtd'),
 ]
 
@@ -156,9 +157,11 @@ def judge(c, rec, res):
             key = 'C20:not-reported:%s:%s' % (res.cls, res.where)
             what = 'invalid XInclude usage (%s, in %s) was accepted without any error' % (res.cls, res.where)
         return 'violation', key, what, {'expected': 'reported (error or fatal)', 'observed': obs_summary, 'dom': [repr(e) for e in norm_events(st.events)[:40]]}
-    # a tree is expected
+    # a tree is expected.  Graphs that contain a construct behind a known defect name it in every key they produce, so that a
+    # known-findings entry for that defect cannot hide a different defect met on graphs without the construct
+    cause = next((name for f, name in ERROR_CAUSES if f in res.features), None)
+    sfx = lambda key: key + (':' + cause if cause and cause not in key else '')
     if reported:
-        cause = next((name for f, name in ERROR_CAUSES if f in res.features), None)
         if cause is None:
             cause = 'other:' + (codes[0] if codes else (st.exc[0][0] if st.exc else '?'))
         return 'violation', 'C20:error-on-valid:' + cause, 'a valid inclusion graph was rejected: %s' % (codes or st.exc), {'expected': 'no error', 'observed': obs_summary}
@@ -179,14 +182,14 @@ def judge(c, rec, res):
             kind = 'structure'
         if k >= len(exp):
             origin = res.origins[-1] if res.origins else 'end'
-        return 'violation', 'C20:tree-differs:%s:%s' % (origin, kind), 'resulting DOM differs from the reference expansion at event %d' % k, \
+        return 'violation', sfx('C20:tree-differs:%s:%s' % (origin, kind)), 'resulting DOM differs from the reference expansion at event %d' % k, \
             {'expected': [repr(e) for e in exp[max(0, k - 3):k + 4]], 'observed': [repr(e) for e in obs[max(0, k - 3):k + 4]], 'at': k}
     # base URIs, element by element
     if len(bus) != len(res.bases):
         return 'violation', 'C20:harness:element-count', 'element count of the base URI walk differs from the tree', {'expected': len(res.bases), 'observed': len(bus)}
     for k, ((q, u, own), (eb, flags)) in enumerate(zip(bus, res.bases)):
         if norm_uri(u, root) != eb:
-            return 'violation', 'C20:base-uri:' + flags, 'getBaseURI() of element #%d <%s> differs from the URI it had in its source document' % (k, q), \
+            return 'violation', sfx('C20:base-uri:' + flags), 'getBaseURI() of element #%d <%s> differs from the URI it had in its source document' % (k, q), \
                 {'expected': eb, 'observed': u, 'observed_normalised': norm_uri(u, root), 'own_xml_base_attribute': own, 'root': root}
     return 'ok', 'tree', None, None
 
@@ -225,11 +228,26 @@ HAND = [  # regression graphs (each a finding or a corner met during development
     ('twice', {'a.xml': '<r xmlns:xi="%s"><xi:include href="b.xml"/><m><xi:include href="b.xml"/></m></r>' % xigen.XI, 'b.xml': '<b/>'}, 'a.xml'),
     ('root-include', {'a.xml': '<!--x--><xi:include xmlns:xi="%s" href="s/b.xml"/><?p q?>' % xigen.XI, 's/b.xml': '<!--c--><b><e/></b><?z y?>'}, 'a.xml'),
     ('xml-base-root-doc', {'a.xml': '<r xmlns:xi="%s" xml:base="s/"><xi:include href="b.xml"/><xi:include xml:base="../t/" href="c.xml"/></r>' % xigen.XI, 's/b.xml': '<b/>', 't/c.xml': '<c><d/></c>'}, 'a.xml'),
+    ('nested-fallback', {'a.xml': '<r xmlns:xi="%s"><xi:include href="no.xml"><xi:fallback>t<xi:include href="no2.xml"><xi:fallback><xi:include href="s/c.xml"/></xi:fallback></xi:include></xi:fallback></xi:include></r>' % xigen.XI,
+                         's/c.xml': '<c/>'}, 'a.xml'),
+    # minimal witnesses of the defects found on the unchanged tree (notes/C20.md); they stay in the workload so that a repair shows up
+    ('w1-empty-fallback-first-child', {'a.xml': '<p xmlns:xi="%s"><xi:include href="missing.xml"><xi:fallback/></xi:include>text</p>' % xigen.XI}, 'a.xml'),
+    ('w2-unused-fallback-include', {'a.xml': '<r xmlns:xi="%s"><xi:include href="b.xml"><xi:fallback><xi:include href="no.xml"/></xi:fallback></xi:include></r>' % xigen.XI, 'b.xml': '<b/>'}, 'a.xml'),
+    ('w3-include-in-include', {'a.xml': '<r xmlns:xi="%s"><xi:include href="b.xml"><xi:include href="b.xml"/></xi:include></r>' % xigen.XI, 'b.xml': '<b/>'}, 'a.xml'),
+    ('w4-href-fragment', {'a.xml': '<r xmlns:xi="%s"><xi:include href="b.xml#x"/></r>' % xigen.XI, 'b.xml': '<b/>'}, 'a.xml'),
+    ('w5a-text-bad-bytes', {'a.xml': '<r xmlns:xi="%s"><xi:include href="t.txt" parse="text"/></r>' % xigen.XI, 't.txt': b'ab\xffcd'}, 'a.xml'),
+    ('w5b-text-bad-char', {'a.xml': '<r xmlns:xi="%s"><xi:include href="t.txt" parse="text"/></r>' % xigen.XI, 't.txt': b'ab\x01cd'}, 'a.xml'),
+    ('w6-text-16k', {'a.xml': '<r xmlns:xi="%s"><xi:include href="t.txt" parse="text"/></r>' % xigen.XI, 't.txt': ('x' * 16383 + '\u20ac' * 3 + 'y' * 20000).encode('utf-8')}, 'a.xml'),
+    ('w7-included-dtd', {'a.xml': '<r xmlns:xi="%s"><xi:include href="b.xml"/></r>' % xigen.XI, 'b.xml': "<!DOCTYPE b [<!ENTITY e 'text'><!ATTLIST b d CDATA 'dv'>]><b>x&e;y</b>"}, 'a.xml'),
+    ('w8-xml-base-included-root', {'a.xml': '<r xmlns:xi="%s"><xi:include href="s/b.xml"/></r>' % xigen.XI, 's/b.xml': '<b xml:base="other.xml"/>'}, 'a.xml'),
+    ('w9a-dot-dotdot', {'a.xml': '<r xmlns:xi="%s"><xi:include href="d/./../c.xml"/></r>' % xigen.XI, 'c.xml': '<c/>', 'd/': b''}, 'a.xml'),
+    ('w9b-missing-dir-dotdot', {'a.xml': '<r xmlns:xi="%s"><xi:include href="nonexistent/../c.xml"/></r>' % xigen.XI, 'c.xml': '<c/>'}, 'a.xml'),
+    ('w10-root-replaced-by-nothing', {'a.xml': '<xi:include xmlns:xi="%s" href="no.xml"><xi:fallback/></xi:include>' % xigen.XI}, 'a.xml'),
 ]
 
 
 def graphs(tier, seed):
-    n = 800 if tier == 'quick' else 40000
+    n = 800 if tier == 'quick' else 20000
     for name, files, root in HAND:
         g = xigen.Graph()
         g.files = dict((p, d if isinstance(d, bytes) else d.encode()) for p, d in files.items())
@@ -266,7 +284,21 @@ def run(tier):
         profiles[g.meta['profile'].split(':')[0]] += 1
     rcases = repo_cases()
     ck.note('%d graph cases, %d in-repo documents' % (len(cases), len(rcases)))
-    recs = core.run_cases(binary, cases + rcases, tag='c20', per_case_timeout=TIMEOUT, env=ENV)
+    shards = int(os.environ.get('XV_SHARDS', '0')) or None      # development knob (shared machine); default: all cores
+    recs = core.run_cases(binary, cases + rcases, shards=shards, tag='c20', per_case_timeout=TIMEOUT, env=ENV, rerun_hangs=False)
+    # cases that tripped the watchdog run once more with three times the budget, in parallel (with a library that loops on
+    # inclusion cycles dozens of cases hang: re-running them one after the other, as run_cases does, would take hours)
+    byid = dict((c.id, c) for c in cases + rcases)
+    hung = [byid[k] for k, v in recs.items() if k in byid and v.hang and not v.crash]
+    false_alarms = 0
+    if hung:
+        ck.note('%d case(s) tripped the watchdog, re-running with %ds' % (len(hung), TIMEOUT * 3))
+        again = core.run_cases(binary, hung, shards=shards, tag='c20h', per_case_timeout=TIMEOUT * 3, env=ENV, rerun_hangs=False)
+        for c in hung:
+            r2 = again.get(c.id)
+            if r2 is not None and (r2.complete or r2.crash):
+                recs[c.id] = r2
+                false_alarms += 0 if r2.crash else 1
     for k, v in recs.items():
         if k.startswith('__exit__'):
             ck.violation('C20:' + v.crash.key(), 'sanitizer report at process exit', {'report': v.crash.text[:4000]})
@@ -338,7 +370,7 @@ def run(tier):
         rstat['fatal' if st.nF else 'error' if st.nE else 'exception' if st.status == 'exc' else 'clean'] += 1
     ck.cov.update(graph_profiles=dict(profiles), outcomes=dict(outcomes), fatal_classes=dict(fatal_classes), loops=dict(loops), model_features=dict(features),
                   skipped_undecided=dict(skipped), api=dict(apis), root_given_as=dict(hows), fatal_reported_by_exception_only=by_exc,
-                  in_repo_documents=dict(rstat), watchdog_false_alarms=len(core.WATCHDOG_FALSE_ALARMS))
+                  in_repo_documents=dict(rstat), watchdog_false_alarms=false_alarms)
     ck.rule = ('one evaluation = one parse (graph x API) compared with the reference expansion, or one in-repo document under the sanitizers; distinct + non-trivial = graph cases in which the '
                'model processed at least one xi:include (an inclusion, a used fallback or a fatal error), distinct by (files, root, API)')
     ck.assumptions = [
